@@ -93,7 +93,7 @@ impl Commitments {
 impl Serializable for Commitments {
     /// Serializes `self` and writes the resulting bytes into the `target`.
     fn write_into<W: ByteWriter>(&self, target: &mut W) {
-        assert!(self.0.len() < u16::MAX as usize);
+        assert!(self.0.len() <= u16::MAX as usize);
         target.write_u16(self.0.len() as u16);
         target.write_bytes(&self.0);
     }
